@@ -84,6 +84,18 @@ Definition outside_change (T rc : its) : list N :=
                   (gnodes T)).
 Definition centre_carries (T : its) : bool := match outside_change T (get_rc T) with [] => true | _ => false end.
 
+(** ** well-formedness of the input pair, as booleans (evaluated by [run_c04] on every case): both graphs have distinct ids,
+    one bond entry per atom pair, positive orders, bonds between their own atoms; the same atoms on both sides with the
+    same elements (balanced, mapped) *)
+Definition edges_closed_h (A : hostg) : bool :=
+  forallb (fun e => mem (fst (fst e)) (node_ids A) && mem (snd (fst e)) (node_ids A)) (gedges A).
+Definition pair_wfb (G H : hostg) : bool :=
+  wf_hostb G && wf_hostb H && edges_closed_h G && edges_closed_h H
+  && forallb (fun n => mem n (node_ids H)) (node_ids G) && forallb (fun n => mem n (node_ids G)) (node_ids H)
+  && forallb (fun p => match label H (fst p) with Some y => N.eqb (a_el (snd p)) (a_el y) | None => false end) (gnodes G).
+(** no explicit hydrogen atom at all (every mode-I reaction of the corpora) *)
+Definition no_explicit_H (G : hostg) : bool := forallb (fun p => negb (N.eqb (a_el (snd p)) EL_H)) (gnodes G).
+
 (** ** h_to_implicit on a substrate graph *)
 Definition is_H_h (g : hostg) (n : N) : bool :=
   match label g n with Some a => N.eqb (a_el a) EL_H | None => false end.
@@ -160,6 +172,15 @@ Definition regenerate (core invert : bool) (G H : hostg) : option its :=
   | Some (rc, l, r) => finish (mode_E G H) (glue (substrate invert G H) rc (id_map (node_ids (pattern_of l))))
   end.
 
+(** the matcher's identity mapping and what its_list builds from the mappings the pruning keeps (implicit path) *)
+Definition identity (core invert : bool) (G H : hostg) : mapping :=
+  match rule_of core invert G H with Some (_, l, _) => id_map (node_ids (pattern_of l)) | None => [] end.
+Definition its_list (core invert : bool) (G H : hostg) (kept : list mapping) : list (option its) :=
+  match rule_of core invert G H with
+  | None => []
+  | Some (rc, _, _) => map (fun m => finish (mode_E G H) (glue (substrate invert G H) rc m)) kept
+  end.
+
 (** ** observables: see harness/props/C04.py *)
 (** [guard]: the documented strict_cc_count guard of the COMPONENT strategy applies (strategy = comp and the substrate has
     more connected components than the pattern: the engine returns no match at all; model/C06_Model.v find_comp) --
@@ -174,7 +195,8 @@ Definition run_c04 (core invert guard : bool) (G H : hostg) (remaps : option (li
   let sA := if invert then H else G in
   let sB := if invert then G else H in
   let head := L [tbool (explicit_centre rc0); tbool (implicit_change T); tbool (negb (centre_carries T));
-                 tbool (consistent_H T); tits (if core then rc0 else T)] in
+                 tbool (consistent_H T); tits (if core then rc0 else T);
+                 tbool (pair_wfb G H); tbool (no_explicit_H G)] in
   match rule_of core invert G H with
   | None => L [head; I (-1)]
   | Some (rc, l, r) =>
@@ -206,5 +228,9 @@ Definition run_c04 (core invert guard : bool) (G H : hostg) (remaps : option (li
          tbool (match remaps, regenerate core invert G H with
                 | None, Some f => regen_folded f sA sB
                 | _, _ => false end);
+         tbool (match remaps with
+                | None => existsb (fun f => match f with Some f' => regen_folded f' sA sB | None => false end)
+                                  (its_list core invert G H [identity core invert G H])
+                | Some _ => false end);
          tbool (wf_rcb rc && wf_hostb host)]
   end.
